@@ -9,7 +9,8 @@
    distinguishable through `parse` either).
 
    What is mirrored, statement by statement:
-     tokens = list(tokens) + [Symbol(END_OF_INPUT)]        run: toks ++ [t_eoi]
+     tokens = list(tokens); tokens.append(Token(END_OF_INPUT, "", end_location))
+                                                           run: toks ++ [t_eoi]
      stack = [(0, None)]                                   stk = [] (the bottom entry is implicit)
      tokens[cursor]                                        head of `rest`; IndexError past the end -> CrashTokenIndex
      self.action.get(state(), {}) / default_errors         `next_action`
